@@ -363,7 +363,7 @@ def interface_broken_itself_and_badly_implemented(rng, ir, inj):
         own = SField(inj.fresh("zzok"), named("Int"), [SInput(bad, named("Int"))])
     i = iface_with(ir, inj, SField(f, lst(named("Int"))))
     i.fields.append(own)
-    implement(ir, inj, i, [SField(f, named("Int")), copy.deepcopy(own)])
+    implement(ir, inj, i, [SField(f, named("Int")), S.clone(own)])
     return f
 
 
@@ -648,7 +648,7 @@ def run(ctx):
         base = S.generate(rng)
         has_iface = any(t.kind == "interface" for t in base.types.values())
         # 1. valid schemas (+ benign additions) in several orderings
-        ir = copy.deepcopy(base)
+        ir = S.clone(base)
         inj = Inj()
         for b in BENIGN:
             if rng.random() < 0.7:
@@ -672,7 +672,7 @@ def run(ctx):
                 break
         # 2. injected violations, singly and combined
         for ri in range(10):
-            ir = copy.deepcopy(base)
+            ir = S.clone(base)
             inj = Inj()
             k = rng.choice([1, 1, 1, 2, 3, 4])
             chosen = rng.sample(OPS, k)
@@ -740,7 +740,7 @@ def run(ctx):
             if len(set(map(tuple, verdicts))) > 1:
                 ctx.violation("verdict-depends-on-type-order", witness, repr(verdicts))
         # 3. histories: resolver registrations between validate() calls
-        ir = copy.deepcopy(base)
+        ir = S.clone(base)
         inj = Inj()
         q = ir.types[ir.query]
         f = SField("zzHistory", named("Int"), [SInput("arg", nn(named("Int")))])
